@@ -350,6 +350,7 @@ SPECS["C04"] = dict(
     max_parallel=12,
     jobs=engine_jobs("c04", "./verifx/c04", [
         dict(id="lifecycle", run="^TestC04Lifecycle$", quick=dict(shards=6, checks=150, timeout=600, shrinktime=30), thorough=dict(shards=4, checks=6000, timeout=3400, shrinktime=300)),
+        dict(id="ioerr", run="^TestC04IOErrorCause$", quick=dict(shards=2, checks=150, timeout=600, shrinktime=30), thorough=dict(shards=4, checks=5000, timeout=3400, shrinktime=120)),
         dict(id="loopexit", run="^TestC04LoopExit$", quick=dict(shards=2, checks=400, timeout=600, shrinktime=30), thorough=dict(shards=4, checks=4000, timeout=3400, shrinktime=120)),
         dict(id="clientudp", run="^TestC04ClientUDP$", quick=dict(shards=2, checks=150, timeout=600, shrinktime=30), thorough=dict(shards=4, checks=6000, timeout=3400, shrinktime=120)),
     ]),
